@@ -47,6 +47,15 @@ def close_fds():
     return 3
 
 
+def close_stdin():
+    import os
+    try:
+        os.close(0)
+    except OSError:
+        pass
+    return 4
+
+
 def hush():
     logging.disable(logging.CRITICAL)
     return 4
@@ -93,7 +102,7 @@ def probe(flag):
         raise KeyError(a)
     return (a, b, c)
 '''
-_CALLS = ["chatter()", "boom()", "close_streams()", "close_fds()", "hush()", "unhush()", "reseed()", "burn()", "draw()",
+_CALLS = ["chatter()", "boom()", "close_streams()", "close_fds()", "close_stdin()", "hush()", "unhush()", "reseed()", "burn()", "draw()",
           "replace_stdout()"]
 
 
@@ -137,8 +146,8 @@ def _state():
     fds = []
     for fd in (0, 1, 2):
         try:
-            os.fstat(fd)
-            fds.append(True)
+            st_ = os.fstat(fd)
+            fds.append((st_.st_dev, st_.st_ino))     # open, and the same open file as before
         except OSError:
             fds.append(False)
     return {"stdout_is_original": sys.stdout is sys.__stdout__, "stderr_is_original": sys.stderr is sys.__stderr__,
@@ -183,6 +192,8 @@ def _check_c30(part: Part, tier, seed):
     workdir, hook, executor = _setup()
     try:
         base = _state()
+        if base["fds_open"][0] and not _SAVED_STDIN:
+            _SAVED_STDIN.append(__import__("os").dup(0))
         probes = ["probe(False)", "probe(True)", "chatter()"]
         hists = [()] + [(c,) for c in _CALLS] + [(a, b) for a in _CALLS for b in _CALLS]
         if tier == "thorough":
@@ -230,12 +241,17 @@ def _check_c30(part: Part, tier, seed):
         logging.disable(logging.NOTSET)
 
 
+_SAVED_STDIN = []      # a duplicate of the harness's own fd 0, taken before the first execution
+
+
 def _repair(base):
     """Put the process back after a recorded violation so that later cases are judged on their own."""
     import logging, os, sys  # noqa: E401
     from pynguin.testcase.execution_isolation import OutputSuppressionContext
     logging.disable(base["logging_disable"])
     sys.stdout, sys.stderr = sys.__stdout__, sys.__stderr__
+    if base["fds_open"][0] and _state()["fds_open"][0] != base["fds_open"][0] and _SAVED_STDIN:
+        os.dup2(_SAVED_STDIN[0], 0)
     if OutputSuppressionContext._null_file.closed:   # noqa: SLF001
         OutputSuppressionContext._null_file = open(os.devnull, "w")   # noqa: SLF001, PTH123, SIM115
 
@@ -245,7 +261,7 @@ def bounded_c30(tier, seed):
                                             f"{EI}:OutputSuppressionContext.__enter__", f"{EI}:OutputSuppressionContext.restore",
                                             f"{EI}:_make_deterministic", "pynguin.generator:_patch_random"],
              scope="real TestCaseExecutor (set up in the generator's order: _patch_random, import hook, module import) on a module "
-                   "whose functions print, raise, close sys.stdout/sys.stderr, close fds 1/2, replace sys.stdout, disable and "
+                   "whose functions print, raise, close sys.stdout/sys.stderr, close fds 1/2, close fd 0, replace sys.stdout, disable and "
                    "re-enable logging, reseed and consume the module-level random and two long-lived random.Random instances: "
                    "every history of 0, 1 and 2 of these 10 calls (thorough: + 300 of length 3) followed by each of 3 probe test "
                    "cases; after every execution the process state (sys.stdout/stderr identity and closedness, fds 0-2, logging "
